@@ -8,6 +8,7 @@ import (
 	"strings"
 	"sync"
 	"sync/atomic"
+	"syscall"
 	"time"
 
 	"grits/parser"
@@ -74,10 +75,26 @@ func gritsFrame(g gInfo) string {
 
 // ---------- parse / check ----------
 
+// cpuTime is the CPU time (user+system) consumed by the calling OS thread so far; unlike
+// wall-clock time it does not grow when the machine is busy with other work, and unlike the
+// process-wide figure it is not inflated by the parallel background workers of the garbage collector.
+func cpuTime() time.Duration {
+	var ru syscall.Rusage
+	const rusageThread = 1 // RUSAGE_THREAD: only the calling OS thread (the caller locks its goroutine to it)
+	if err := syscall.Getrusage(rusageThread, &ru); err != nil {
+		return 0
+	}
+	return time.Duration(ru.Utime.Nano() + ru.Stime.Nano())
+}
+
 func parseTimed(text string, resp *wire.Resp) ([]*process.Process, []process.Name, *process.GlobalEnvironment, bool) {
+	runtime.LockOSThread()
 	t0 := time.Now()
+	c0 := cpuTime()
 	procs, assumed, env, err := parser.ParseString(text)
 	resp.ParseUs = time.Since(t0).Microseconds()
+	resp.ParseCPUUs = (cpuTime() - c0).Microseconds()
+	runtime.UnlockOSThread()
 	if err != nil {
 		resp.ParseErr = err.Error()
 		if resp.ParseErr == "" {
